@@ -184,6 +184,92 @@ theorem push_lengths (c : Client) (m : Msg) :
     (c.push m).msgs.length = c.msgs.length + 1 ∧ (c.push m).parsed.length = c.parsed.length + 1 := by
   simp [Client.push]
 
+
+/-! ### the error index equals what follows from the records -/
+
+/-- a record counts as an error when an `Err*` state or Exception is active in it (and the
+    time sum did not go back against the record before). -/
+def errRec (c : Client) (i : Nat) : Bool :=
+  let m := c.msgs.getD i default
+  let bad := if i = 0 then false else csum m.clocks < csum (c.msgs.getD (i - 1) default).clocks
+  !bad && (c.errSt.any (fun e => isActiveTick (m.clocks.getD e 0)) || isActiveTick (m.clocks.getD c.exc 0))
+
+/-- the linear scan: every error record, newest first. -/
+def errorsSpec (c : Client) : List Nat := ((List.range c.msgs.length).filter (errRec c)).reverse
+
+theorem errRec_push_old (c : Client) (m : Msg) (i : Nat) (hi : i < c.msgs.length) :
+    errRec (c.push m) i = errRec c i := by
+  have h1 : (c.push m).msgs = c.msgs ++ [m] := by simp [Client.push]
+  have h2 : (c.push m).errSt = c.errSt := by simp [Client.push]
+  have h3 : (c.push m).exc = c.exc := by simp [Client.push]
+  unfold errRec
+  simp only [h1, h2, h3]
+  have g1 : (c.msgs ++ [m]).getD i default = c.msgs.getD i default := by
+    simp [List.getD, List.getElem?_append_left hi]
+  have g2 : (c.msgs ++ [m]).getD (i - 1) default = c.msgs.getD (i - 1) default := by
+    have : i - 1 < c.msgs.length := by omega
+    simp [List.getD, List.getElem?_append_left this]
+  rw [g1, g2]
+
+theorem push_errors (c : Client) (m : Msg) (hl : c.msgs.length = c.parsed.length) :
+    (c.push m).errors =
+      if errRec (c.push m) c.msgs.length then c.msgs.length :: c.errors else c.errors := by
+  have h1 : (c.push m).msgs = c.msgs ++ [m] := by simp [Client.push]
+  have h2 : (c.push m).errSt = c.errSt := by simp [Client.push]
+  have h3 : (c.push m).exc = c.exc := by simp [Client.push]
+  have g1 : (c.msgs ++ [m]).getD c.msgs.length default = m := by simp [List.getD]
+  unfold errRec
+  simp only [h1, h2, h3, g1]
+  rcases List.eq_nil_or_concat c.msgs with hm | ⟨ms, pm, hm⟩
+  · have hp : c.parsed = [] := by
+      have : c.parsed.length = 0 := by rw [← hl, hm]; rfl
+      exact List.eq_nil_of_length_eq_zero this
+    simp [Client.push, hm, hp]
+  · rcases List.eq_nil_or_concat c.parsed with hp | ⟨ps, pp, hp⟩
+    · rw [hm, hp] at hl; simp at hl
+    · have g2 : (c.msgs ++ [m]).getD (c.msgs.length - 1) default = pm := by
+        rw [hm]; simp [List.getD]
+      have hne : c.msgs.length ≠ 0 := by rw [hm]; simp
+      simp only [g2, hne, if_false]
+      simp [Client.push, hm, hp]
+
+/-- **C16 (error index)**: pushing a record keeps the error index equal to the linear scan
+    over all records (newest first), for any set of `Err*` states. -/
+theorem C16_errors_step (c : Client) (m : Msg) (hl : c.msgs.length = c.parsed.length)
+    (he : c.errors = errorsSpec c) : (c.push m).errors = errorsSpec (c.push m) := by
+  have hlen : (c.push m).msgs.length = c.msgs.length + 1 := (push_lengths c m).1
+  rw [push_errors c m hl]
+  unfold errorsSpec at *
+  rw [hlen, List.range_succ, List.filter_append, List.reverse_append]
+  have hold : (List.range c.msgs.length).filter (errRec (c.push m)) =
+      (List.range c.msgs.length).filter (errRec c) := by
+    apply List.filter_congr
+    intro i hi
+    exact errRec_push_old c m i (List.mem_range.mp hi)
+  rw [hold, ← he]
+  cases hb : errRec (c.push m) c.msgs.length <;> simp [List.filter, hb]
+
+/-- **C16 (error index), every stream**: after any sequence of records the error index is
+    the linear scan over them. -/
+theorem C16_errors_exact (n exc : Nat) (errSt : List Nat) (ms : List Msg) :
+    let c := ms.foldl Client.push ({ n := n, exc := exc, errSt := errSt } : Client)
+    c.errors = errorsSpec c := by
+  suffices h : ∀ (c : Client), c.msgs.length = c.parsed.length → c.errors = errorsSpec c →
+      (ms.foldl Client.push c).errors = errorsSpec (ms.foldl Client.push c) by
+    exact h _ rfl rfl
+  induction ms with
+  | nil => intro c _ he; exact he
+  | cons m ms ih =>
+    intro c hl he
+    simp only [List.foldl_cons]
+    apply ih
+    · have := push_lengths c m; omega
+    · exact C16_errors_step c m hl he
+
+/-- non-vacuity: a second `Err*` state alone (no Exception) puts the record into the index. -/
+example : (({ n := 3, exc := 0, errSt := [1, 2] } : Client).push
+    { id := 1, clocks := [0, 0, 1], qtick := 1 }).errors = [0] := by decide
+
 /-! ### filters never show a transition that does not match them -/
 
 /-- **C16 (filters)**: the filtered view lists exactly the records that pass the
